@@ -27,6 +27,8 @@ def gen_file(r, blocked, nrecs, cap):
 
 def _drive(args):
     seed, tid, blocked, nrecs, cap, lo, hi = args
+    if nrecs == -77777:
+        return _abandoned(seed, tid, blocked)
     r = drv.rng(seed, 'c09', tid)
     if nrecs == -99999:
         recs = [vbsc.rec_content(r, n_, 'code', i * 131) for i, n_ in enumerate([300 + (i * 37) % 200 for i in range(60)])]
@@ -59,6 +61,39 @@ def _drive(args):
     return {'tid': tid * 1000 + lo // 700, 'blk': blocked, 'strict': False, 'loc': False, 'events': events,
             '_desc': '%s file of %d bytes, records %s, every cut %d..%d' % ('blocked' if blocked else 'unblocked', len(data),
                                                                         [len(x) for x in recs], lo, hi)}
+
+
+def _abandoned(seed, tid, blocked):
+    """a writer that is never closed (the producer died): the file holds complete records and no end record.  It is
+    read through the SAME file object; the abandoned writer object is collected while reading is under way."""
+    import gc
+    from cardutil import mciipm
+    recs = [vbsc.rec_content(drv.rng(seed, 'aband', tid, i), n, 'code', i * 53) for i, n in enumerate((20, 300, 7, 1100, 64, 40))]
+    f = drv.new_file()
+    w = mciipm.VbsWriter(f, blocked=blocked)
+    for x in recs:
+        w.write(x)
+    data = f.getvalue()
+    f.seek(0)
+    events = [drv.ev('given', 0, '', data)]
+    rd = mciipm.VbsReader(f, blocked=blocked)
+    for i in range(20):
+        if i == 2:
+            del w
+            gc.collect()
+        try:
+            with drv.Watchdog(5.0):
+                rec = next(rd)
+        except StopIteration:
+            events.append(drv.ev('next', 0, 'stop'))
+            break
+        except BaseException as ex:  # noqa
+            events.append(drv._err_event(drv.exc_outcome(ex)))
+            break
+        events.append(drv.ev('next', 0, 'rec', rec))
+    return {'tid': tid * 1000, 'blk': blocked, 'strict': False, 'loc': False, 'events': events,
+            '_desc': '%s writer abandoned after %d records (never closed), read through the same file object; the writer '
+                     'object is collected after two records' % ('blocked' if blocked else 'unblocked', len(recs))}
 
 
 def _drive_ipm(args):
@@ -130,6 +165,8 @@ def run(rep, wd, tier, seed):
                 jobs.append((seed, 1000 + n * 2 + int(blocked), blocked, -n, 0, lo, lo + 699))
     for lo in range(0, 5 * (P + 2), 700):
         jobs.append((seed, 4000, True, -88888, 0, lo, lo + 699))
+    for blocked in (False, True):
+        jobs.append((seed, 4100 + int(blocked), blocked, -77777, 0, 0, 0))
     for lo in (4086, 8182, 16374, 24566):
         jobs.append((seed, 5000 + lo, False, -99999, 0, lo, lo + 24))
     jobs.append((seed, 5999, False, -99999, 0, 10 ** 6, 10 ** 6))          # the complete file
